@@ -42,8 +42,8 @@ def step (_ : Unit) (j : Json) : Except String (Unit × Drv.Out) := do
   -- property clauses on every listing shown
   for c in calls do
     match c.op, c.out with
-    | .find [f], .found es =>
-      if f == {} then
+    | .find fs, .found es =>
+      if fs.any (· == {}) then   -- an unconstrained filter among them: the answer is a listing of the whole store
         match listingBad cap es with
         | some (cls, msg) => o := o.mon "concurrency" cls msg
         | none => pure ()
